@@ -139,10 +139,12 @@ class Ctx:
         self.coverage["axioms"] = {n: sorted(a) for n, a in axioms.items()}
         # source grep
         hits = []
-        for dp, _, fn in os.walk(os.path.join(LEAN, "TsVerif")):
-            for f in fn:
-                if f.endswith(".lean"):
-                    hits += grep_forbidden(os.path.join(dp, f))
+        dirs = [self.prop, "Common", "Gen"] + list(getattr(self, "extra_lean_dirs", []))
+        for d in dirs:
+            for dp, _, fn in os.walk(os.path.join(LEAN, "TsVerif", d)):
+                for f in fn:
+                    if f.endswith(".lean"):
+                        hits += grep_forbidden(os.path.join(dp, f))
         self.oblige("no-sorry-admit-axiom-native_decide", not hits, "; ".join(hits)[:300])
         if self.tier == "thorough":
             for m in modules:
@@ -167,16 +169,17 @@ class Ctx:
             return None
         return os.path.join(HARNESS, "target", "release", name)
 
-    def cunit(self):
-        """Unity build of the C runtime + line-protocol main (every static function callable)."""
-        exe = os.path.join(CACHE, "tsv-cunit")
-        src = os.path.join(HARNESS, "csrc", "cunit.c")
+    def cunit(self, name="cunit"):
+        """Unity build: csrc/<name>.c does `#include TSV_REPO_LIB_C` (= /repo/lib/src/lib.c) and adds a
+        line-protocol main, so every function of the runtime, `static` ones included, is callable."""
+        exe = os.path.join(self.workdir, "tsv-" + name)
+        src = os.path.join(HARNESS, "csrc", name + ".c")
         rc, out = sh(["cc", "-std=c11", "-O1", "-w", "-D_POSIX_C_SOURCE=200112L", "-D_DEFAULT_SOURCE",
                       "-DTSV_REPO_LIB_C=\"%s/lib/src/lib.c\"" % REPO,
                       "-I", REPO + "/lib/src", "-I", REPO + "/lib/src/wasm", "-I", REPO + "/lib/include",
                       src, "-o", exe])
         if rc != 0:
-            self.oblige("build:tsv-cunit", False, out[-1500:])
+            self.oblige("build:tsv-" + name, False, out[-1500:])
             return None
         return exe
 
@@ -292,10 +295,16 @@ def grep_forbidden(path):
 
 
 def load_known(prop):
-    p = os.path.join(ROOT, "KNOWN_FINDINGS.json")
-    if not os.path.exists(p):
-        return []
-    return [k for k in json.load(open(p)).get("findings", []) if k.get("property") == prop]
+    """Committed known findings: KNOWN_FINDINGS.json plus known_findings/*.json (never written at run time)."""
+    out = []
+    paths = [os.path.join(ROOT, "KNOWN_FINDINGS.json")]
+    d = os.path.join(ROOT, "known_findings")
+    if os.path.isdir(d):
+        paths += [os.path.join(d, f) for f in sorted(os.listdir(d)) if f.endswith(".json")]
+    for p in paths:
+        if os.path.exists(p):
+            out += [k for k in json.load(open(p)).get("findings", []) if k.get("property") == prop]
+    return out
 
 
 def match_fp(pattern, fp):
@@ -336,6 +345,11 @@ def main(argv):
     seed = int(os.environ.get("VERIF_SEED", "20260925"))
     sys.path.insert(0, ROOT)
     mod = importlib.import_module("checks." + a.prop.lower())
+    os.makedirs(CACHE, exist_ok=True)
+    import fcntl
+    lock = open(os.path.join(CACHE, "repo.lock"), "w")
+    if os.environ.get("VERIF_HAVE_REPO_LOCK") != "1":
+        fcntl.flock(lock, fcntl.LOCK_SH)   # tools/with_patch takes it exclusively while /repo is patched
     ctx = Ctx(a.prop, a.tier, seed, a.replay)
     try:
         return mod.run(ctx)
